@@ -59,6 +59,12 @@ CLAIMED = {
             "rank lists, non-contiguous and lazily conjugated core views, requires_grad cores), all four dtypes.",
             "Trusted: torch.equal, storage pointers, the checker's dense contraction. CPU only.",
             "DESIGN.md 4/C19"),
+    "C11": ("property-based testing (Hypothesis): generated compatible operand pairs, spectra, eps, internal seeds and initial guesses vs. dense product with 3*eps bound",
+            "Generated search over routine x order (1-6) x mode/rank profile x spectrum (exact-rank / decaying) x eps "
+            "decade x internal seed x user initial guess x dtype, oracle = dense product from the checker's contraction, "
+            "bound 3 eps ||ref|| (calibrated worst 0.68) plus roundoff.",
+            "Trusted: checker's dense product. 'All seeds' is sampled. Python backend only (C17 covers C++).",
+            "DESIGN.md 4/C11"),
     "C10": ("property-based testing (Hypothesis): generated ordered factorisations / permutations / QTT shapes on (scrambled, complex) sources vs. dense reshape/permute with eps-scaled bound",
             "Generated search over every ordered factorisation/merge of the element count with inserted/removed singleton "
             "modes, all permutations up to order 6, QTT shapes and round trips, on real/complex, optionally gauge-scrambled "
